@@ -2,6 +2,7 @@
 //! usage: harness <stream> <cases.json> <observed.json>
 use serde_json::Value;
 
+mod c03;
 mod c04;
 mod c09;
 mod c11;
@@ -20,6 +21,7 @@ fn main() {
     let input: Value = serde_json::from_str(&std::fs::read_to_string(&args[2]).expect("read cases")).expect("parse cases");
     let cases = input["cases"].as_array().expect("cases array");
     let observed: Vec<Value> = match args[1].as_str() {
+        "c03" => cases.iter().map(c03::run).collect(),
         "c04" => cases.iter().map(c04::run).collect(),
         "c09" => cases.iter().map(c09::run).collect(),
         "fsops" => cases.iter().map(fsops::run).collect(),
